@@ -731,3 +731,82 @@ def _ite_leaves(t, limit=8):
         else:
             out.append(x)
     return out
+
+
+# ---------------------------------------------------------------------------------------------
+# M[mask, j] op= scalar   (2-D, column j, rows selected by a bool mask or an index array)
+# ---------------------------------------------------------------------------------------------
+def _s_AugAssign(orig):
+    def s_AugAssign(self, node, state):
+        t = node.target
+        if isinstance(t, ast.Subscript) and isinstance(t.slice, ast.Tuple) and len(t.slice.elts) == 2 \
+                and not any(isinstance(e, ast.Slice) for e in t.slice.elts):
+            ev = self.ev
+            base = ev.eval(state, t.value)
+            if base.ty[0] == 'arr2' and base.ty[1] in (T.INT, T.REAL):
+                rows = ev.eval(state, t.slice.elts[0])
+                if _is_seq(rows) and rows.ty[1] == T.BOOL:
+                    j = _col_index(ev, state, base, t.slice.elts[1], node)
+                    rhs = ev.eval(state, node.value)
+                    if j is not None and rhs.ty in (T.INT, T.REAL) and join_types(base.ty[1], rhs.ty) == base.ty[1] \
+                            and isinstance(node.op, (ast.Add, ast.Sub, ast.Mult)):
+                        n0, n1 = NP.m_n0(base), NP.m_n1(base)
+                        ev.ctx.oblige(state, seq_len(rows) == n0, 'IndexError', node,
+                                      'row mask has the height of the matrix')
+                        ety = base.ty[1]
+                        s = coerce(rhs, ety).term
+                        r = _pointwise2(state, n0, n1, ety,
+                                        lambda x, y: z3.If(z3.And(y == j, seq_at(rows, x)),
+                                                           NP.elem_arith(node.op, NP.m_at(base, x, y), s, ety == T.REAL),
+                                                           NP.m_at(base, x, y)), 'maug2')
+                        ref = ev.eval_ref(state, t.value)
+                        if ref is None:
+                            raise Unsupported("2-D aug-store into a temporary")
+                        SX.write_ref(state, ref, r)
+                        return [EX.Outcome('normal', state)]
+        if isinstance(t, ast.Subscript) and not isinstance(t.slice, (ast.Slice, ast.Tuple)):
+            # a[mask] op= v (1-D, bool mask): handled here whatever `numpy_prims.fancy_augstore` is
+            ev = self.ev
+            base = ev.eval(state, t.value)
+            if base.ty[0] == 'arr':
+                iv = ev.eval(state, t.slice)
+                if _is_seq(iv) and iv.ty[1] == T.BOOL:
+                    rhs = ev.eval(state, node.value)
+                    ref = ev.eval_ref(state, t.value)
+                    if ref is None:
+                        raise Unsupported("aug-store into a temporary")
+                    SX.write_ref(state, ref, fancy_augstore(ev, state, base, iv, node.op, rhs, node))
+                    return [EX.Outcome('normal', state)]
+        return orig(self, node, state)
+    return s_AugAssign
+
+
+EX.Executor.s_AugAssign = _s_AugAssign(EX.Executor.s_AugAssign)
+
+
+# a[idx] = v / a[mask] = v : routed to this module's fancy_store whatever other extension modules
+# install as numpy_prims.fancy_store (the scores contracts were proved against these axioms)
+def _assign_subscript(orig):
+    def assign_subscript(self, t, v, state, node, val_node=None):
+        if not isinstance(t.slice, (ast.Slice, ast.Tuple)) and self.ctx.qualname.startswith(_SCORES_AREA):
+            ev = self.ev
+            base_ref = ev.eval_ref(state, t.value)
+            if base_ref is not None:
+                base = SX.read_ref(state, base_ref)
+                if base.ty[0] == 'arr':
+                    iv = ev.eval(state, t.slice)
+                    if iv.ty[0] == 'opt' and iv.ty[1][0] in ('arr', 'list'):
+                        ev.ctx.oblige(state, z3.Not(T.opt_is_none(iv.ty, iv.term)), 'TypeError', node,
+                                      'index is not None')
+                        iv = select(iv, ('some',))
+                    if _is_seq(iv):
+                        SX.write_ref(state, base_ref, fancy_store(ev, state, base, iv, v, node))
+                        return
+        return orig(self, t, v, state, node, val_node)
+    return assign_subscript
+
+
+_SCORES_AREA = ('cell_type_mapper.diff_exp.scores.', 'cell_type_mapper.diff_exp.score_utils.',
+                'cell_type_mapper.utils.stats_utils.', 'cell_type_mapper.diff_exp.p_value_markers.',
+                'cell_type_mapper.diff_exp.markers.', 'cell_type_mapper.marker_selection.')
+EX.Executor.assign_subscript = _assign_subscript(EX.Executor.assign_subscript)
